@@ -223,7 +223,8 @@ def run(ctx):
                       f"self.{attr}[{T.show(e.key)}] = {T.show(v)[:120]}: not the result of frame `when`'s own matrix under key `when`")
         # any other rebind in ForSys
         for fq, stt in repo.writers_of(attr, kinds=("rebind",)):
-            if fq.cls is not None and fq.cls.qualname == FS and fq.qualname not in writers and isinstance(stt["recv"], ast.Name) and stt["recv"].id == "self":
+            if fq.cls is not None and fq.cls.qualname == FS and fq.qualname not in writers and not rules.private_only_from(repo, fq, writers) \
+                    and isinstance(stt["recv"], ast.Name) and stt["recv"].id == "self":
                 ctx.violation("KIND", f"{fq.qualname} / KIND / self.{attr} rebound", ctx.where(fq, stt["node"]),
                               f"`{fq.module.line(stt['node'].lineno)}` rebinds the per-frame store")
 
